@@ -30,6 +30,20 @@ class StubIntegral:
         return r
 
 
+class StubElement:
+    has_custom_quadrature = False
+
+
+class StubQuadratureElement:
+    has_custom_quadrature = True
+
+    def __init__(self, q):
+        self.q = q
+
+    def custom_quadrature(self):
+        return self.q
+
+
 def make_form_data(n):
     def make(interp, name):
         integrals = []
@@ -47,8 +61,13 @@ def make_form_data(n):
             if interp.ctx.decide(2, f"integral {i} has quadrature_rule metadata") == 1:
                 r = SV(z3.String(f"given_rule_{i}"), "str")
                 md["quadrature_rule"] = r
-            given.append((g, r, est))
-            integrals.append(StubIntegral(md))
+            q = None
+            if interp.ctx.decide(2, f"integral {i} contains a quadrature element") == 1:
+                q = (f"points_of_integral_{i}", f"weights_of_integral_{i}")
+            given.append((g, r, est, q))
+            si = StubIntegral(md)
+            si.elements = [StubQuadratureElement(q)] if q else [StubElement()]
+            integrals.append(si)
         interp.ctx.ghost["given"] = given
         idata = types.SimpleNamespace(integrals=integrals)
         return types.SimpleNamespace(integral_data=[idata])
@@ -58,7 +77,8 @@ def make_form_data(n):
 
 def register(reg):
     # externals of the fragment
-    reg.effects[ufl.algorithms.extract_elements] = lambda interp, fn, args, kwargs: []
+    reg.effects[ufl.algorithms.extract_elements] = lambda interp, fn, args, kwargs: list(args[0].elements)
+    reg.interp_force.add(StubQuadratureElement.custom_quadrature)
     reg.interp_force.add(StubIntegral.metadata)
 
     def np_max(interp, x, *a, **k):
@@ -71,13 +91,17 @@ def register(reg):
         "ffcx/analysis.py::_analyze_form", dict(form_data=Custom(make_form_data(2))), fn=frag, ghost_names=["given"],
         ensures=[
             # each integral keeps ITS OWN degree: the given one if >= 0, else its own estimate
-            "all([form_data.integral_data[0].integrals[i].metadata()['quadrature_degree'] == (ghost('given')[i][0] if (ghost('given')[i][0] is not None"
+            "all([ghost('given')[i][3] is not None or form_data.integral_data[0].integrals[i].metadata()['quadrature_degree'] == (ghost('given')[i][0] if (ghost('given')[i][0] is not None"
             " and not (ghost('given')[i][0] < 0)) else ghost('given')[i][2]) for i in range(2)])",
-            "all([form_data.integral_data[0].integrals[i].metadata()['quadrature_rule'] == (ghost('given')[i][1] if ghost('given')[i][1] is not None else 'default')"
+            "all([ghost('given')[i][3] is not None or form_data.integral_data[0].integrals[i].metadata()['quadrature_rule'] == (ghost('given')[i][1] if ghost('given')[i][1] is not None else 'default')"
             " for i in range(2)])",
+            # an integral with a quadrature element uses exactly that element's points and weights; no other integral does
+            "all([ghost('given')[i][3] is None or (form_data.integral_data[0].integrals[i].metadata()['quadrature_rule'] == 'custom'"
+            " and form_data.integral_data[0].integrals[i].metadata()['quadrature_points'] == ghost('given')[i][3][0]"
+            " and form_data.integral_data[0].integrals[i].metadata()['quadrature_weights'] == ghost('given')[i][3][1]) for i in range(2)])",
         ],
-        properties=["C11"], modular=False, name="_analyze_form#metadata-loop",
-        bounded="2 integrals in one integral-data group; no custom quadrature element",
+        properties=["C11", "C01"], modular=False, name="_analyze_form#metadata-loop",
+        bounded="2 integrals in one integral-data group; at most one quadrature element per integral",
         mutants=[('qd = int(np.max(integral.metadata()["estimated_polynomial_degree"]))', 'qd = 1'),
                  ("if qd < 0:", "if qd <= 0:")]))
 
